@@ -197,6 +197,7 @@ Operand(txt, v) == [txt |-> txt, v |-> v]
 M1 == <<[k |-> "a", v |-> VInt(1)]>>
 M2 == <<[k |-> "b", v |-> VInt(2)]>>
 M3 == <<[k |-> "a", v |-> VInt(3)]>>
+M4 == <<[k |-> "a", v |-> VInt(5)], [k |-> "b", v |-> VInt(2)]>>     \* larger than the others and sharing a key with them
 AllOperands == <<
   Operand("0", VInt(0)), Operand("1", VInt(1)), Operand("2", VInt(2)), Operand("3", VInt(3)),
   Operand("7", VInt(7)), Operand("10", VInt(10)), Operand("-1", VInt(-1)), Operand("-4", VInt(-4)),
@@ -206,7 +207,8 @@ AllOperands == <<
   Operand("[1,2]", VArr(<<VInt(1), VInt(2)>>)), Operand("[]", VArr(<<>>)), Operand("['a']", VArr(<<VStr("a")>>)),
   Operand("{'a':1}", VMap(M1)), Operand("{'b':2}", VMap(M2)), Operand("{'a':3}", VMap(M3)),
   Operand("9223372036854775807", VMax), Operand("-9223372036854775808", VMin),
-  Operand("nosuchvar", VFail) >>
+  Operand("nosuchvar", VFail),
+  Operand("{'a':5,'b':2}", VMap(M4)) >>
 
 \* ---------- enumeration
 CONSTANTS K,          \* number of binary operators in the expression (1..3)
